@@ -562,6 +562,7 @@ package dbft
 //@   loop 1: invariant len(c.TransactionHashes) == len(txx) && !isnil(c.Transactions) && sametable(txx, gPool)
 //@   loop 1: invariant forall(j, 0, i, c.TransactionHashes[j] == txx[j].Hash() && has(c.Transactions, txx[j].Hash()))
 //@   loop 1: invariant txKept()
+//@   loop 1: invariant forall(j, 0, i, c.Transactions[txx[j].Hash()].Hash() == txx[j].Hash())
 //@   ensures wf() && txKept()
 //@   ensures implies(!result, self.Config.MaxTimePerBlock != nil)
 //@   ensures [C15] @unchangedIfRefused implies(!result, unchanged(c.Timestamp, c.Nonce, c.TransactionHashes, c.Transactions) && c.Config.MaxTimePerBlock != nil && !force && len(gPool) == 0)
@@ -569,6 +570,8 @@ package dbft
 //@   ensures [C15] @increasing implies(result, c.Timestamp > c.lastBlockTimestamp)
 //@   ensures [C15,C14] @clock implies(result, c.Timestamp == max(c.lastBlockTimestamp + c.Config.TimestampIncrement, truncClock()))
 //@   ensures [C15] @pool implies(result, len(c.TransactionHashes) == len(gPool) && forall(j, 0, len(gPool), c.TransactionHashes[j] == gPool[j].Hash() && has(c.Transactions, gPool[j].Hash())))
+// what is stored under a listed hash is a transaction WITH that hash (the block is later filled from this map)
+//@   ensures [C15,C02] @poolMapped implies(result, forall(j, 0, len(gPool), c.Transactions[gPool[j].Hash()].Hash() == gPool[j].Hash()))
 //@   modifies Context.Nonce, Context.Timestamp, Context.TransactionHashes, Context.Transactions, gClock, gPool
 //@ func (*Context).makePrepareRequest
 //@   recvname c
